@@ -31,7 +31,7 @@ import ufl.core.compute_expr_hash
 import ufl.measure
 import ufl.integral
 import ufl.form
-from ufl import (Coefficient, Constant, FunctionSpace, Mesh, TestFunction, dx, ds, grad, inner, sin, variable, as_vector, conditional, lt)
+from ufl import (Coefficient, Constant, FunctionSpace, Mesh, TestFunction, dx, ds, grad, inner, sin, variable, as_vector, as_tensor, conditional, lt)
 from ufl.core.multiindex import FixedIndex, Index, MultiIndex
 from ufl.exprequals import expr_equals
 from ufl.pullback import identity_pullback
@@ -369,6 +369,20 @@ def build(run):
                 MultiIndex((FixedIndex(1), i)), C.Label(951), variable(f * g), f * g + 1, u[i] * u[i], as_vector([f, g]), conditional(lt(f, g), f, 2.0),
                 grad(f), sin(f) ** 2, f("+"), inner(grad(u), grad(u)), A.T, abs(f), C.Conj(f), f / g,
                 Coefficient(FunctionSpace(t["msh"], P1, "labelled")), C.CellVolume(t["msh"]), C.Jacobian(t["msh"])]
+        # operands that the canonical operand order cannot separate (they differ only in free-index / label numbers), given to
+        # every commutative constructor in both orders: the printed operand order must be reproduced by eval(repr(.))
+        j = Index(942)
+        va, vb = C.Variable(f, C.Label(952)), C.Variable(f, C.Label(953))
+        ties = [(A[i, j], A[j, i]), (va, vb), (A[i, 0], A[j, 0]), (u[i], u[j])]
+        for p_, q_ in ties:
+            for x_, y_ in ((p_, q_), (q_, p_)):
+                if x_.ufl_free_indices == y_.ufl_free_indices:
+                    objs += [x_ + y_, C.Sum(x_, y_), C.Abs(x_ + y_) * f]
+                    if not x_.ufl_free_indices:
+                        objs += [x_ * y_, C.Product(x_, y_)]
+                else:
+                    objs += [C.Product(x_, y_)]
+        objs += [as_tensor(A[i, j] + A[j, i], (i, j)), as_tensor(A[j, i] + A[i, j], (i, j)), inner(as_tensor(A[i, 0], (i,)), as_tensor(A[j, 0], (j,)))]
         n = 0
         for o in objs:
             n += 1
